@@ -99,6 +99,12 @@ def run_terminate():
     except BaseException as e:  # noqa: BLE001
         error = "%s: %s" % (type(e).__name__, e)
     elapsed = time.time() - t0
+    if not spec["timeout"]:
+        # terminate(timeout=0) does not wait for anything, not even for its own kill calls (they run in pool threads): give
+        # those threads a moment before this process looks at the children and leaves with os._exit
+        t_grace = time.time() + 1.5
+        while time.time() < t_grace and any(proc_state(v) not in (None, "Z") for v in pids.values()):
+            time.sleep(0.02)
     states = {k: proc_state(v) for k, v in pids.items()}
     emit({"phase": "done", "hang": False, "pids": pids, "elapsed": elapsed, "error": error,
           "len": len(group), "tojoin": len(group._gateways_to_join), "states": states})
